@@ -43,6 +43,8 @@ def run(rep):
                      "\"assumes that the first list only contains unique items\"); the list specification used here is first list's order, "
                      "then the new items once each, which that behaviour satisfies")
 
+    from vlib import probes
+    probes.run(rep, "C14")
 
 def replay(rep, path):
     return c13.replay_family(rep, path, run)
